@@ -75,6 +75,7 @@ type Stats struct {
 	Complete     int            `json:"complete_execs"`
 	WithChoice   int            `json:"execs_with_choice"`
 	PrunedExecs  int            `json:"pruned_execs"`
+	ParkedExecs  int            `json:"execs_ending_with_parked_workers"`
 	ChoicePoints int64          `json:"choice_points"`
 	Steps        int64          `json:"steps"`
 	MaxPoints    int            `json:"max_points"`
@@ -202,6 +203,9 @@ func (x *explorer) explore(prefix, expN []uint8, level int) {
 			st.PrunedExecs++
 		} else {
 			st.Complete++
+			if res.Parked > 0 {
+				st.ParkedExecs++
+			}
 			st.ByStatus[res.Status.String()]++
 			pre := preemptions(res.Points)
 			if pre > st.MaxPreempt {
@@ -299,6 +303,7 @@ func MergeStats(a, b *Stats) {
 	a.Complete += b.Complete
 	a.WithChoice += b.WithChoice
 	a.PrunedExecs += b.PrunedExecs
+	a.ParkedExecs += b.ParkedExecs
 	a.ChoicePoints += b.ChoicePoints
 	a.Steps += b.Steps
 	if b.MaxPoints > a.MaxPoints {
